@@ -24,7 +24,7 @@ extern "C" void h_decompressed_read(void)
   new (&df->name_) std::string("x");
   const unsigned long pos = vf_nondet_u8() % 40, len = vf_nondet_u8() % 20;
   bool threw = false; std::vector<DFS::byte> got;
-  try { got = df->read(pos, len); } catch (std::exception&) { threw = true; }
+  /* non-virtual call: the object was not constructed (no vptr) */ try { got = df->DecompressedFile::read(pos, len); } catch (std::exception&) { threw = true; }
   const unsigned long avail = pos < size ? size - pos : 0;
   const unsigned long want = len < avail ? len : avail;
   vf_assert(!threw, "reading at or beyond the end of the data is not an error");
